@@ -1031,7 +1031,7 @@ engine_gen(struct plan * P, uint64_t seed, struct prng * g)
 		if (x < 55) {
 			int64_t len = prng_chance(g, 60) ? lens[prng_n(g, 16)] : (int64_t)prng_n(g, 3000);
 
-			if (prng_n(g, 1000) < 1)
+			if (prng_n(g, 3000) < 1)
 				l = plan_add(P, "step", "read", 2, (int64_t)prng_n(g, 70000), (int64_t)1);	/* 16 MiB + a little */
 			else
 				l = plan_add(P, "step", "read", 1, len);
